@@ -95,7 +95,16 @@ func sameViolation(res *Result, prop, class string) *Violation {
 
 // SafeExecute runs the driver and turns a panic of the harness itself into a
 // harness error (exit 2), never into a violation.
+// BeforeCase, if set, resets process-wide state of the system under test
+// before every case (so that a case behaves the same whether it is the
+// hundredth in a worker or the first in a fresh replay process) and returns
+// the function that restores it.
+var BeforeCase func() func()
+
 func SafeExecute(d Driver, c *Case) (res *Result) {
+	if BeforeCase != nil {
+		defer BeforeCase()()
+	}
 	defer func() {
 		if r := recover(); r != nil {
 			res = &Result{HarnessErr: fmt.Sprintf("harness panic: %v", r)}
@@ -657,7 +666,7 @@ func ReplayFile(path string) int {
 		fmt.Fprintf(os.Stderr, "harness: unknown property %s\n", rp.Property)
 		return 2
 	}
-	res := d.Execute(rp.Case)
+	res := SafeExecute(d, rp.Case)
 	if res.HarnessErr != "" {
 		fmt.Fprintf(os.Stderr, "harness: %s\n", res.HarnessErr)
 		return 2
